@@ -327,10 +327,105 @@ func drawRepo(t *rapid.T, name string, deep bool, apiBundles, apiSplitUploads *i
 	return r
 }
 
+// drawMany: one kind gets n > 1000 objects (n around the page sizes 1024 and 2048)
+func drawMany(t *rapid.T) caseT {
+	c := caseT{Profile: "many"}
+	kinds := []string{"repos", "bundles", "diamonds", "splits"}
+	if hx.Thorough() {
+		kinds = append(kinds, "labels") // listing a label costs ~1 ms inside datamon (a default logger is built per label)
+	}
+	kind := rapid.SampledFrom(kinds).Draw(t, "many_kind")
+	n := rapid.SampledFrom([]int{1023, 1024, 1025, 1100, 2047, 2048, 2049, 2100}).Draw(t, "many_n")
+	if rapid.Bool().Draw(t, "many_any") {
+		n = rapid.IntRange(1001, 2100).Draw(t, "many_n_any")
+	}
+	r := repoT{Name: rapid.SampledFrom([]string{"r", "many", "x-y"}).Draw(t, "many_repo")}
+	salt := rapid.IntRange(0, 1000).Draw(t, "many_salt")
+	switch kind {
+	case "repos":
+		seen := map[string]bool{r.Name: true}
+		for i := 0; len(c.Others) < n-1; i++ {
+			// names over the repo alphabet, many sharing prefixes: base-14 digits of a scrambled counter
+			x := (i*7919 + salt) % 38416
+			rs := []rune{repoChars[x%14], repoChars[(x/14)%14]}
+			if x/196 > 0 {
+				rs = append(rs, repoChars[(x/196)%14])
+			}
+			if x/2744 > 0 {
+				rs = append(rs, repoChars[(x/2744)%14])
+			}
+			if name := string(rs); !seen[name] {
+				seen[name] = true
+				c.Others = append(c.Others, name)
+			}
+		}
+	case "bundles":
+		for i := 0; i < n; i++ {
+			how := "forged"
+			if (i+salt)%11 == 0 {
+				how = "leftover"
+				n++ // leftovers are not bundles: keep n bundles
+			}
+			r.Bundles = append(r.Bundles, bundleT{Sec: (i * 5) % 7, Tag: uint64(1000 + (i*7919+salt)%100000), How: how})
+		}
+		seen := map[string]bool{}
+		out := r.Bundles[:0]
+		for _, b := range r.Bundles {
+			if !seen[b.id()] {
+				seen[b.id()] = true
+				out = append(out, b)
+			}
+		}
+		r.Bundles = out
+	case "labels":
+		for i := 0; i < n; i++ {
+			r.Labels = append(r.Labels, labelT{Name: fmt.Sprintf("v%d-%d", (i*7919+salt)%100003, i%3), Sec: i % 3, Tag: uint64(i % 5)})
+		}
+		seen := map[string]bool{}
+		out := r.Labels[:0]
+		for _, l := range r.Labels {
+			if !seen[l.Name] {
+				seen[l.Name] = true
+				out = append(out, l)
+			}
+		}
+		r.Labels = out
+	case "diamonds":
+		for i := 0; i < n; i++ {
+			r.Diamonds = append(r.Diamonds, diamondT{Sec: i % 7, Tag: uint64(1000 + i), Start: (i*7 + salt) % 9, Final: []string{"", "", "canceled", "done"}[(i+salt)%4], How: "forged"})
+		}
+	case "splits":
+		d := diamondT{Sec: 1, Tag: 1, Start: 1, How: "forged"}
+		for i := 0; i < n; i++ {
+			id := hx.KSUID(i%7, uint64(1000+i))
+			if i%3 == 0 {
+				id = fmt.Sprintf("pod-%d", i)
+			}
+			d.Splits = append(d.Splits, splitT{ID: id, Start: (i*7 + salt) % 9, Done: (i+salt)%3 == 0, How: "forged"})
+		}
+		r.Diamonds = append(r.Diamonds, d, diamondT{Sec: 2, Tag: 2, Start: 0, How: "forged"})
+	}
+	c.Focus = []repoT{r}
+	for _, b := range []int{512, 1000, 1023, 1024, 1025, 2047, 2048} {
+		if rapid.IntRange(0, 2).Draw(t, "many_skip") == 0 {
+			continue
+		}
+		c.Lists = append(c.Lists, listT{Kind: kind, Batch: b, Conc: drawConc(t), Apply: rapid.Bool().Draw(t, "many_apply")})
+	}
+	c.Lists = append(c.Lists, listT{Kind: kind, NoOpts: true, Apply: rapid.Bool().Draw(t, "many_apply")},
+		listT{Kind: kind, Batch: rapid.IntRange(64, 2048).Draw(t, "many_batch"), Conc: drawConc(t)})
+	return c
+}
+
 func drawCase(t *rapid.T) caseT {
 	// profiles: mixed = all kinds, moderate sizes; deep = few diamonds whose splits have many file lists,
 	// many listings; wide = deep plus one diamond with 1100..2600 keys below it (several pages of 1024/2048)
-	c := caseT{Profile: rapid.SampledFrom([]string{"mixed", "mixed", "mixed", "mixed", "mixed", "deep", "deep", "wide"}).Draw(t, "profile")}
+	// many = more than 1024 (up to 2100) objects of one kind, listed with pages of 512..2048 and the defaults
+	c := caseT{Profile: rapid.SampledFrom([]string{"mixed", "mixed", "mixed", "mixed", "mixed", "mixed", "mixed", "mixed", "mixed", "mixed",
+		"deep", "deep", "deep", "deep", "wide", "many"}).Draw(t, "profile")}
+	if c.Profile == "many" {
+		return drawMany(t)
+	}
 	wide := c.Profile == "wide"
 	deep := c.Profile == "deep" || wide
 	max := maxObjects()
